@@ -245,6 +245,16 @@ theorem typerepo_set_all_filtered (acc : Int → Bool) (shs : List (Shard × Lis
   obtain ⟨p, hp, hn⟩ := hn
   exact ⟨p, hp, typerepo_set_filtered acc p.1 p.2.1 p.2.2 n hn⟩
 
+/-- `(type:repo child) AND rest` through `typeRepoSearcher`: every returned file is a live document of a repository
+    the context may access (the RepoSet restricts matches, it never adds any) -/
+theorem typerepo_search_filtered (acc : Int → Bool) (shChild shRest : Shard) (mode : ListMode) (earlyChild : Bool) :
+    ∀ f ∈ (typeRepoSearch acc shChild shRest mode earlyChild).files,
+      ∃ r, shRest.repos[f.repoIdx]? = some r ∧ acc r.tenant = true ∧ r.tomb = false ∧
+        f.repository = r.name ∧ f.repositoryID = r.id := by
+  intro f hf
+  obtain ⟨r, d, h1, _, _, h4, h5, _, h7, h8, _⟩ := files_filtered acc _ false 0 f hf
+  exact ⟨r, h1, h4, h5, h7, h8⟩
+
 /-! ### non-interference -/
 
 /-- **non-interference, search**: the whole result of a search (files, RepoURLs, LineFragments) is unchanged when every
